@@ -108,7 +108,9 @@ func (s *copyService) Handle(ctx context.Context, conn net.Conn) error {
 
 		defer conn2.Close()
 
+		done := make(chan struct{})
 		go func() {
+			defer close(done)
 			io.Copy(conn2, conn)
 			// the client is done: let the backend see end of stream
 			if tc, ok := conn2.(*net.TCPConn); ok {
@@ -116,6 +118,11 @@ func (s *copyService) Handle(ctx context.Context, conn net.Conn) error {
 			}
 		}()
 		_, err = io.Copy(conn, conn2)
+		// the backend is done: let the client see end of stream, but let it finish what it
+		// is still sending (until its own end of stream, an error, or the read deadline)
+		if cw, ok := conn.(interface{ CloseWrite() error }); ok && cw.CloseWrite() == nil {
+			<-done
+		}
 		return err
 	default:
 		return nil
